@@ -1023,6 +1023,11 @@ class World(BaseWorld):
         for l in A.shadow.variables() | {l for k in keys for l in k}:
             x.setdefault(l, dom0)
         want = A.shadow.value({l: x[l] for l in A.shadow.variables()})
+        # the value functions add floats: only judged when every partial sum is exactly representable
+        dy = dyadic(A.shadow)
+        if dy is None or sum((abs(v) for v in A.shadow.t.values()), Fraction(0)) * (1 << dy[1]) >= (1 << 52):
+            self.probe("value_skipped_inexact_sum")
+            return "skipped-inexact"
         fns = self.qu
         calls = []
         maxlen = max((len(k) for k in keys), default=0)
